@@ -144,7 +144,9 @@ pub fn run_batch(kind: &str, scenario: usize, lo: u64, hi: u64) -> MiriBatch {
     } else if l.starts_with("error: deadlock") || l.contains("the evaluated program deadlocked") {
       b.diagnostics.push(format!("deadlock: {}", l));
     } else if l.starts_with("error: Undefined Behavior") {
-      b.diagnostics.push(format!("undefined-behaviour: {}", l));
+      // some other Miri diagnostic (aliasing model, unsupported operation in a dependency): not a verdict on
+      // this property - reported as a harness error (exit 2), never as a VIOLATION
+      other_errors.push(l.to_string());
     } else if l.starts_with("error: unsupported operation") || l.starts_with("error: could not compile") || l.starts_with("error[E") {
       other_errors.push(l.to_string());
     }
